@@ -491,14 +491,7 @@ func c04r5(r *R) {
 	r.check(okPA, "errorResponse#challenge", er.Pos(), "Proxy-Authenticate: Basic realm=… set iff the status is 407", "the 407 response does not get a Basic challenge (or it is set for other statuses)")
 	okEH := setEH != nil && !escapesFromEntry(er, setEH)
 	r.check(okEH, "errorResponse#error-header", er.Pos(), "X-Forwarder-Error set on every path", "X-Forwarder-Error is not set on every error response")
-	var handlers []string
-	eachInstr(er, func(ins ssa.Instruction) {
-		if st, ok := ins.(*ssa.Store); ok {
-			if f, ok := unbox(st.Val).(*ssa.Function); ok && strings.HasPrefix(refName(f), "handle") {
-				handlers = append(handlers, refName(f))
-			}
-		}
-	})
+	handlers := errorHandlerList(r, er)
 	have := strings.Join(handlers, ",")
 	need := []string{"handleMartianErrorStatus", "handleAuthenticationError", "handleDenyError", "handleProhibitedError"}
 	miss := ""
